@@ -8,14 +8,14 @@ Require Import TT.Proofs.C07TypeParseProofs TT.Proofs.C07HarvestProofs TT.Proofs
 Import ListNotations.
 
 (* For every iteration order of every hash collection (root set, dependency sets, used set, field name
-   sets, struct map, event name sets) and every project of the documented feature set outside the five
-   remaining classes (the one-argument Result alias and the event payload dependencies were repaired): the list of types declared in types.ts has no duplicate, contains exactly the
+   sets, struct map, event name sets) and every project of the documented feature set outside the three
+   remaining classes C07-5, C07-6, C07-7 (comma splitting, the one-argument Result alias and the event payload
+   dependencies were repaired): the list of types declared in types.ts has no duplicate, contains exactly the
    types of the specification (least set closed under field types from parameters, success arms of
    returns, channel messages and event payloads, restricted to project-defined serde types), and is a
    permutation of the list the run-time oracle computes. *)
 Theorem C07_exact : forall (o : orders) (p : project) (decl : list str),
   ord_ok o -> in_domain p = true ->
-  kf_c07_result_map p = false -> kf_c07_tuple_generic p = false ->
   kf_c07_field_result p = false -> kf_c07_odd_name p = false -> kf_c07_inline_mod p = false ->
   C07Reach.declared o p = Some decl ->
   NoDup decl /\ (forall x, In x decl <-> SpecReach p x) /\ Permutation decl (reachable_spec p).
@@ -58,7 +58,6 @@ Proof. exact (nested_exact str str_dec). Qed.
 
 (* outside the syntactic classes the decidable agreement premise holds *)
 Theorem C07_agree_from_classes : forall p, in_domain p = true ->
-  kf_c07_result_map p = false -> kf_c07_tuple_generic p = false ->
   kf_c07_field_result p = false -> kf_c07_odd_name p = false -> kf_c07_inline_mod p = false -> agree_b p = true.
 Proof. exact agree_from_classes. Qed.
 
@@ -67,14 +66,12 @@ Proof. exact agree_from_classes. Qed.
    syntax tree (outside its three classes) and parse_type_structure followed by
    collect_referenced_types_from_structure finds exactly the success-arm names (outside its two) *)
 Theorem C07_readers_agree : forall q y, ty_ok q = true -> good y ->
-  kf_result_ok_has_comma (rty_of q) = false -> kf_tuple_elem_has_comma (rty_of q) = false ->
   (In y (extract_type_names (tstr q)) <-> In y (leaf_names q)) /\
   (In y (ts_of (tstr q)) <-> In y (ok_names q)).
 Proof. exact readers_agree. Qed.
 
 (* the name harvester returns exactly the named types (both arms of a Result), string level *)
 Theorem C07_harvest_names : forall fuel t, height t < fuel -> wf t -> heads_known t ->
-  kf_result_ok_has_comma t = false -> kf_tuple_elem_has_comma t = false ->
   same_set (harvest fuel (tts t)) (names t).
 Proof. exact harvest_names. Qed.
 
@@ -87,10 +84,16 @@ Theorem C07_model_total : forall o p, ord_ok o -> in_domain p = true -> exists d
 Proof. intros o p Ho Hd. exact (declared_total o Ho p (domain_nodup p Hd)). Qed.
 
 (* inside each recorded class the faithful model declares a different set: computed witnesses *)
-Theorem C07_result_map_refuted : kf_c07_result_map w_result_map = true /\ refutes w_result_map.
-Proof. exact result_map_refuted. Qed.
-Theorem C07_tuple_generic_refuted : kf_c07_tuple_generic w_tuple_generic = true /\ refutes w_tuple_generic.
-Proof. exact tuple_generic_refuted. Qed.
+(* repaired (fix: resolver and harvester share the depth-aware comma splitter): the former witnesses of
+   C07-1 and C07-2 now declare exactly the specification's set *)
+Theorem C07_result_map_repaired : repaired w_result_map.
+Proof. exact result_map_repaired. Qed.
+Theorem C07_tuple_generic_repaired : repaired w_tuple_generic.
+Proof. exact tuple_generic_repaired. Qed.
+
+(* the resolver on the printed form of every well-formed type of the documented language, with no class left *)
+Theorem C07_parse_faithful : forall t, wf t -> forall fuel, height t < fuel -> parse fuel (tts t) = Some (sem t).
+Proof. exact parse_tts_faithful. Qed.
 (* repaired (fix: harvester descends into Result<T>; event payload types bring their nested dependencies):
    the former witnesses now declare exactly the specification's set *)
 Theorem C07_result_alias_repaired : repaired w_result_alias.
@@ -108,12 +111,11 @@ Proof. exact odd_name_refuted. Qed.
    premise of C07_exact and declares eight types *)
 Example C07_ex_premises :
   in_domain sample = true /\ agree_b sample = true /\
-  kf_c07_result_map sample = false /\ kf_c07_tuple_generic sample = false /\
   kf_c07_field_result sample = false /\ kf_c07_odd_name sample = false /\
   kf_c07_inline_mod sample = false /\
   ord_ok o_default /\
   exists d, C07Reach.declared o_default sample = Some d /\ List.length d = 8.
-Proof. do 7 (split; [vm_compute; reflexivity|]).
+Proof. do 5 (split; [vm_compute; reflexivity|]).
   split; [exact ord_ok_default|]. eexists. split; [vm_compute; reflexivity|]. reflexivity. Qed.
 Example C07_ex_worklist : work str_dec (fun n => if str_eqb n (L "A") then [L "B"; L "X"] else if str_eqb n (L "B") then [L "A"] else [])
     (fun n => str_eqb n (L "A") || str_eqb n (L "B")) (fun _ => true) 9 [L "A"; L "Z"] [] = Some [L "B"; L "A"].
@@ -132,8 +134,9 @@ Print Assumptions C07_readers_agree.
 Print Assumptions C07_harvest_names.
 Print Assumptions C07_spec_total.
 Print Assumptions C07_model_total.
-Print Assumptions C07_result_map_refuted.
-Print Assumptions C07_tuple_generic_refuted.
+Print Assumptions C07_result_map_repaired.
+Print Assumptions C07_tuple_generic_repaired.
+Print Assumptions C07_parse_faithful.
 Print Assumptions C07_result_alias_repaired.
 Print Assumptions C07_event_nested_repaired.
 Print Assumptions C07_field_result_refuted.
